@@ -38,7 +38,7 @@ import (
 // ---- case format -------------------------------------------------------------
 
 type Step struct {
-	Act     string `json:"act"`     // stmt | nest | selfcommit | selfrollback | cancel | nop | inner
+	Act     string `json:"act"`     // stmt | nest | selfcommit | selfrollback | cancel | nop | inner | tripbrk
 	Meth    string `json:"meth"`    // stmt: exec | query | prep
 	WithCtx bool   `json:"withctx"` // stmt: the ...Ctx variant with the body's context
 	Variant int    `json:"variant"` // which of the equivalent entry points (QueryRow / QueryRowPartial / ...; nest flavour)
@@ -117,6 +117,14 @@ type TOut struct {
 	ConnID    int      `json:"conn_id"`  // connection of this thread's Begin (0: none)
 	DeadAtCall bool    `json:"dead_at_call"` // the context handed to the call was already done
 	ByDeadline bool    `json:"by_deadline"`  // that context ends (ended) with context.DeadlineExceeded
+	// a Session method used AFTER the call had ended (the body leaked its session): "" (the body did not
+	// run) | txdone (refused with sql.ErrTxDone) | other: <text>. A driver call it caused is in the log.
+	Late string `json:"late"`
+	// the breaker of this transaction's SqlConn was made to open while its body ran (tripbrk steps);
+	// whether the breaker then really refused a request
+	Trips     int  `json:"trips"`
+	TripsOpen int  `json:"trips_open"`
+	NoRewrap  bool `json:"no_rewrap"` // rewrap asked for, but the session holds no *sql.Tx this executor can find
 }
 
 type Out struct {
@@ -128,6 +136,9 @@ type Out struct {
 	InUse   int     `json:"inuse"` // connections checked out when every call had ended
 	Tripped bool    `json:"tripped"`
 	Fail    string  `json:"fail,omitempty"`
+	// the case asks for something this tree's session type does not offer (a Commit / Rollback method to
+	// reach through a type assertion): not a failure, the case is re-run without those steps
+	Unsupported string `json:"unsupported,omitempty"`
 }
 
 var (
@@ -214,6 +225,8 @@ type plan struct {
 }
 
 var curPlan atomic.Pointer[plan]
+
+const tripQuery = "trip the breaker"
 
 func (p *plan) clearFailed(t int) {
 	if p.free {
@@ -355,8 +368,14 @@ func (c *fconn) Begin() (driver.Tx, error) {
 	return &ftx{c: c}, nil
 }
 
+var errDown = errors.New("inj: database is down")
+
 func (c *fconn) stmt(kind, q string) error {
 	p := c.p
+	if !p.armed || q == tripQuery {
+		// requests made to trip the breaker: they fail, unlogged and outside the script
+		return errDown
+	}
 	tid, k, err := parseQ(q)
 	if err != nil {
 		p.fail = err.Error()
@@ -469,6 +488,7 @@ type thr struct {
 	bodyRet  error
 	retErr   error
 	finished bool
+	sess     sqlx.Session    // the session the body was given (used again after the call has ended)
 	parent   context.Context // inline threads: the context the nested call is derived from
 	shareCtx bool            // ... or is handed as it is
 }
@@ -484,6 +504,7 @@ type runner struct {
 	parked  chan struct{}
 	esched  []int
 	fail    string
+	unsupported string
 }
 
 var dsnSeq int
@@ -712,6 +733,19 @@ func (r *runner) finish(t int) {
 		defer r.p.mu.Unlock()
 	}
 	out.InUse = r.inUse()
+	if th.sess != nil && !r.c.Free {
+		// the body leaked its session: a statement through it after the call has ended must not reach
+		// the driver (the connection is back in the pool, it may be serving another transaction)
+		_, lerr := th.sess.Exec(fmt.Sprintf("t%d stmt %d", t, 9000))
+		switch {
+		case errors.Is(lerr, sql.ErrTxDone):
+			out.Late = "txdone"
+		case lerr == nil:
+			out.Late = "other: nil"
+		default:
+			out.Late = "other: " + lerr.Error()
+		}
+	}
 	// the breaker's verdict on the call is asked for (a) with the very error that is returned and
 	// (b) once the transaction is over: after the last driver call made on its behalf
 	n, args, pos := r.accCalls(th.spec.Conn, t)
@@ -768,14 +802,84 @@ func (r *runner) finish(t int) {
 	out.Rejected = f.Unavail && !mine && out.Runs == 0
 }
 
+// rawTx finds the *sql.Tx inside the session handed to a body, whatever the session type looks like
+// today (txSession{*sql.Tx}, a struct with more fields, a wrapper around another session ...).
 func rawTx(s sqlx.Session) *sql.Tx {
-	v := reflect.ValueOf(s)
-	if v.Kind() == reflect.Struct && v.NumField() == 1 {
-		if tx, ok := v.Field(0).Interface().(*sql.Tx); ok {
-			return tx
+	return findTx(reflect.ValueOf(s), 0)
+}
+
+var txType = reflect.TypeOf((*sql.Tx)(nil))
+
+func findTx(v reflect.Value, depth int) *sql.Tx {
+	if depth > 5 || !v.IsValid() {
+		return nil
+	}
+	switch v.Kind() {
+	case reflect.Interface:
+		if v.IsNil() {
+			return nil
+		}
+		return findTx(v.Elem(), depth+1)
+	case reflect.Ptr:
+		if v.IsNil() {
+			return nil
+		}
+		if v.Type() == txType {
+			return (*sql.Tx)(v.UnsafePointer())
+		}
+		return nil // other pointers (the SqlConn, locks, ...) are not followed
+	case reflect.Struct:
+		for i := 0; i < v.NumField(); i++ {
+			if tx := findTx(v.Field(i), depth+1); tx != nil {
+				return tx
+			}
 		}
 	}
 	return nil
+}
+
+// selfEnd: the body ends the transaction behind Transact's back, through the session's own Commit /
+// Rollback method if it has one, else on the *sql.Tx inside it.
+func selfEnd(s sqlx.Session, commit bool) func() error {
+	if commit {
+		if c, ok := s.(interface{ Commit() error }); ok {
+			return c.Commit
+		}
+	} else if c, ok := s.(interface{ Rollback() error }); ok {
+		return c.Rollback
+	}
+	if tx := rawTx(s); tx != nil {
+		if commit {
+			return tx.Commit
+		}
+		return tx.Rollback
+	}
+	return nil
+}
+
+// tripBreaker: while the body of transaction t runs, other requests on the same SqlConn fail (the
+// database is down for them) until its breaker refuses requests; then it is up again. None of this is
+// scripted or logged, and it is on nobody's behalf (the acceptable functions see thread -2).
+func (r *runner) tripBreaker(th *thr) {
+	p := r.p
+	conn := r.conns[th.spec.Conn]
+	prev := p.cur
+	p.cur = -2
+	opened, after := false, 0
+	for i := 0; i < 6000 && after < 400; i++ {
+		_, err := conn.Exec(tripQuery)
+		if errors.Is(err, breaker.ErrServiceUnavailable) {
+			opened = true
+		}
+		if opened {
+			after++
+		}
+	}
+	p.cur = prev
+	th.out.Trips++
+	if opened {
+		th.out.TripsOpen++
+	}
 }
 
 func (r *runner) doStmt(ctx context.Context, s sqlx.Session, t, k int, st Step) error {
@@ -879,11 +983,12 @@ func (r *runner) body(t int) func(context.Context, sqlx.Session) error {
 				}
 			}
 		}()
+		th.sess = s
 		if sp.Rewrap {
 			if tx := rawTx(s); tx != nil {
 				s = sqlx.NewSessionFromTx(tx)
 			} else {
-				r.fail = "session does not hold a *sql.Tx"
+				out.NoRewrap = true // the body talks to the session it was given
 			}
 		}
 		for k, st := range sp.Steps {
@@ -895,12 +1000,17 @@ func (r *runner) body(t int) func(context.Context, sqlx.Session) error {
 				err = r.doStmt(ctx, s, t, k, st)
 			case "nest":
 				err = r.doNest(ctx, s, th, st)
-			case "selfcommit":
-				out.SelfEnded = true
-				err = s.(interface{ Commit() error }).Commit()
-			case "selfrollback":
-				out.SelfEnded = true
-				err = s.(interface{ Rollback() error }).Rollback()
+			case "selfcommit", "selfrollback":
+				if end := selfEnd(s, st.Act == "selfcommit"); end != nil {
+					out.SelfEnded = true
+					err = end()
+				} else {
+					r.unsupported = "the session has no Commit / Rollback to reach"
+				}
+			case "tripbrk":
+				if !r.c.Free {
+					r.tripBreaker(th)
+				}
 			case "cancel":
 				th.cancel()
 			case "inner":
@@ -1067,6 +1177,7 @@ func runCase(c Case) (out Out) {
 	} else if p.fail != "" {
 		out.Fail = p.fail
 	}
+	out.Unsupported = r.unsupported
 	return
 }
 
